@@ -29,6 +29,7 @@ MODFLAG=""
 if [ "$REPO" != "/repo/v4" ]; then
   sed "s|=> /repo/v4|=> $REPO|" go.mod > "$WORK/go.mod"; cp go.sum "$WORK/go.sum"; MODFLAG="-modfile=$WORK/go.mod"
 fi
+export VERIF_WORKDIR=$WORK VERIF_OVERLAY=$WORK/overlay.json VERIF_MODFILE=${MODFLAG#-modfile=}   # for the auxiliary -race build (engine/racepass.go)
 go build $MODFLAG -overlay "$WORK/overlay.json" -o "$WORK/vcheck" ./cmd/vcheck || { echo "verif: harness build failed (machinery, not a verdict)" >&2; exit 2; }
 flock -u 9
 case "${1:-}" in
